@@ -62,8 +62,39 @@ fn strat(w: CWeights, min_ops: usize, max_ops: usize) -> impl Strategy<Value = C
 		// the same third channel, are fulfilled back to back with both inbound preimage updates in flight, and
 		// only one of those updates is completed before the generated operations continue
 		(proptest::bool::weighted(0.085), 15_000_000u64..40_000_000, 15_000_000u64..40_000_000, 1u8..3, 1u8..4, any::<u16>()),
+		// one case in fourteen: B's manager is written by another thread right after B decoded the onion of a
+		// committed inbound HTLC and queued it for forwarding (first half of process_pending_htlc_forwards); B then
+		// forwards, the HTLC is committed downstream, and B later restarts from that write
+		(proptest::bool::weighted(0.07), 2_000_000u64..30_000_000, any::<bool>(), proptest::bool::weighted(0.5), 0u8..4),
 	)
-		.prop_map(|(mut spec, roomy, ops, resolutions, (two, a1, a2, k1, k2, which))| {
+		.prop_map(|(mut spec, roomy, ops, resolutions, (two, a1, a2, k1, k2, which), (queued, qa, landed, claim_first, extra))| {
+			if queued && !two {
+				spec.dust_exposure_fixed_msat = None;
+				spec.dust_exposure_multiplier = spec.dust_exposure_multiplier.max(10_000);
+				spec.inflight_pct = 100;
+				spec.max_accepted = spec.max_accepted.max(20);
+				spec.htlc_min_msat = spec.htlc_min_msat.min(1000);
+				spec.reserve_ppm = spec.reserve_ppm.min(20_000);
+				for v in spec.value_sat.iter_mut() {
+					*v = (*v).max(200_000);
+				}
+				let mut head = vec![
+					COp::Fwd(FwdSend { route: 0, amt: FwdAmt::Base(Amt::Abs(qa)), fee_adj: 0, delta_adj: 0, final_delta: 70 }),
+					COp::Flush,
+					COp::Base(Op::DecodeAdds { node: 30_000 }),
+					COp::SnapshotB,
+					COp::Base(Op::Forwards { node: 30_000 }),
+					COp::Flush,
+				];
+				let mut it = ops.into_iter();
+				head.extend(it.by_ref().take(extra as usize));
+				if claim_first {
+					head.push(COp::ClaimThen { pay: 0, k: 1, then: Disturb::None });
+				}
+				head.push(COp::RestartB { snap: 0, landed });
+				head.extend(it.take(14));
+				return Case { spec, ops: head, resolutions };
+			}
 			if roomy || two {
 				// most worlds leave room for forwarding; the rest keep the tight generated limits (refusals)
 				spec.dust_exposure_fixed_msat = None;
